@@ -357,7 +357,8 @@ pub fn run(cfg: &Cfg) -> Report {
     );
 
     // 1. seeded random programs, all 22 kinds round-robin
-    let n_random = cfg.scaled(if thorough { 660_000 } else { 44_000 });
+    // C14 serialises every observation into six sinks (the Sdt sink is quadratic): fewer programs there
+    let n_random = cfg.scaled(if thorough { if cfg.prop == "C14" { 200_000 } else { 660_000 } } else { 44_000 });
     let max_ops = if thorough { 120 } else { 40 };
     let kinds: Vec<Kind> = match cfg.prop.as_str() {
         "C03" => ALL_KINDS.iter().copied().filter(|k| k.has_body()).collect(),
